@@ -258,6 +258,98 @@ def gen_keyval(rng, tier):
     return chunk("kv", ops, 300)
 
 
+# ------------------------------------------------------------------ variable resolution
+def py_resolve(env, maxsteps=300):
+    """the algorithm of AttributesTools::resolveVariables, only used to keep the number of
+    non-terminating cases (each costs a watchdog time-out) small; returns 'ok' | 'exc' | 'hang'"""
+    am = dict(env)
+    for k in sorted(am):
+        value = am[k]
+        steps = 0
+        i1 = value.find("$(")
+        while i1 != -1:
+            steps += 1
+            if steps > maxsteps or len(value) > 100000:
+                return "hang"
+            i2 = value.find(")", i1)
+            if i2 == -1:
+                return "exc"
+            name = value[i1 + 2:i2]
+            vv = am.get(name)
+            if vv is None or vv == value:
+                vv = ""
+            value = value[:i1] + vv + value[i2 + 1:]
+            am[k] = value
+            i1 = value.find("$(")
+    return "ok"
+
+
+def gen_vars(rng, tier):
+    thorough = tier == "thorough"
+    envs = []
+    # 1. exhaustive small universe: keys a,b; values of up to 2 (quick) / 3 (thorough) tokens
+    toks = ["$(a)", "$(b)", "$(c)", "x"]
+    L = 3 if thorough else 2
+    vals = ["".join(t) for n in range(L + 1) for t in itertools.product(toks, repeat=n)]
+    for va in vals:
+        for vb in vals:
+            envs.append([("a", va), ("b", vb)])
+    # 2. random acyclic definitions: a random dependency order unrelated to the key order
+    names = ["a", "b", "c", "d", "k1", "zz", "A", "m.x"]
+    lits = ["x", "1.5", " ", "f(", ")", "=", ",", "path/", "(y)", ""]
+    nr = 6000 if thorough else 700
+    for _ in range(nr):
+        n = rng.randint(1, 6)
+        keys = rng.sample(names, n)
+        order = keys[:]
+        rng.shuffle(order)                      # order[i] may only refer to order[j], j < i
+        env = []
+        for i, k in enumerate(order):
+            segs = []
+            for _ in range(rng.randint(0, 4)):
+                r = rng.random()
+                if r < 0.45 and i > 0:
+                    segs.append("$(%s)" % rng.choice(order[:i]))
+                elif r < 0.55:
+                    segs.append("$(%s)" % rng.choice(["undef", "q", ""]))
+                else:
+                    segs.append(rng.choice(lits))
+            env.append((k, "".join(segs)))
+        envs.append(env)
+    # 3. cyclic / malformed definitions
+    nc = 1500 if thorough else 250
+    for _ in range(nc):
+        n = rng.randint(1, 4)
+        keys = rng.sample(names, n)
+        env = []
+        for k in keys:
+            segs = []
+            for _ in range(rng.randint(0, 3)):
+                r = rng.random()
+                if r < 0.6:
+                    segs.append("$(%s)" % rng.choice(keys))
+                elif r < 0.7:
+                    segs.append(rng.choice(["$(", "$", "$(a", "$()", "$($(a))"]))
+                else:
+                    segs.append(rng.choice(lits))
+            env.append((k, "".join(segs)))
+        envs.append(env)
+    # keep every terminating case and a few non-terminating ones
+    ops, hangs, maxh = [], 0, (12 if thorough else 4)
+    for env in envs:
+        r = py_resolve(env)
+        if r == "hang":
+            hangs += 1
+            if hangs > maxh:
+                continue
+        op = "vars %d %s" % (len(env), " ".join(hx(k) + " " + hx(v) for k, v in env))
+        ops.append((r, op))
+    normal = [o for r, o in ops if r != "hang"]
+    hanging = [o for r, o in ops if r == "hang"]
+    # non-terminating cases are known findings: one op per case (check.py stops a case at its first issue)
+    return chunk("vars", normal, 200) + [["case varshang%d" % i, o] for i, o in enumerate(hanging)]
+
+
 # ------------------------------------------------------------------ entry points
 def generate(seed, tier):
     rng = random.Random(seed)
@@ -265,6 +357,7 @@ def generate(seed, tier):
     cases += gen_numbers(rng, tier)
     cases += gen_glob(rng, tier)
     cases += gen_keyval(rng, tier)
+    cases += gen_vars(rng, tier)
     return cases
 
 
@@ -292,6 +385,8 @@ def same_double(impl_hex, model_q):
 
 def compare(op_line, impl, model):
     op = op_line.split()[0]
+    if op == "vars" and impl == "hang" and model == "hang":
+        return True
     if op == "num":
         a, b = impl.split(), model.split()
         if len(a) != 4 or len(b) != 4:
